@@ -1,7 +1,7 @@
 (* C04 - binary upload transmits exactly the source bytes, then signals end-of-file.
    Part 1 (here): the loop of data_connection::send. Part 2: the order "close the data connection, then wait for
    the completion reply" is a property of the protocol programs (finish_transfer in Client.v), stated below. *)
-From LibFtp Require Import Bytes Ascii DataConn DataConn_Proofs Reply Client Endpoint Client_Proofs Login_Proofs Transfer_Proofs.
+From LibFtp Require Import Bytes Reply Endpoint Ascii DataConn DataConn_Proofs Client Client_Proofs Login_Proofs Transfer_Proofs.
 Local Open Scope N_scope.
 
 (* whatever chunks the source hands out (any pattern of short reads), an upload that runs to its end writes exactly the
@@ -32,14 +32,14 @@ Print Assumptions C04_eof_before_completion.
    completion reply is read - that reply is only written by the peer when it has seen the close *)
 Theorem C04_upload_end_to_end : forall w u path chunks r1 r2 rest x1 x2 x3 ip port,
   insync w (r1 :: r2 :: rest) -> w_data w = None ->
-  c_mode (w_cfg w) = Passive -> c_tls (w_cfg w) = false -> c_type (w_cfg w) = TBinary ->
+  c_mode (w_cfg w) = Passive -> c_tls (w_cfg w) = false ->
   has_crlf path = false ->
   simple_reaction r1 x1 -> is_negative x1 = false -> passive_target (w_cfg w) x1 ip port ->
   dp_reachable (r_data r1) = true ->
   accepts_transfer r2 x2 x3 ->
   exists w', step w (AUpload u path chunks None) = (OReturn (RvReplies [x1; x2; x3]), w') /\
     insync w' rest /\ w_data w' = None /\ w_cfg w' = w_cfg w /\
-    net_out_bytes (io_events (skipn (length (w_trace w)) (w_trace w'))) = concat (upto_empty chunks) /\
+    net_out_bytes (io_events (skipn (length (w_trace w)) (w_trace w'))) = sent (c_type (w_cfg w)) chunks /\
     wire_events (skipn (length (w_trace w)) (w_trace w')) =
       [WLine (setup_line (w_cfg w)); WReply x1; WLine (upverb_bytes u ++ SP :: path); WReply x2; WReply x3] /\
     data_events (skipn (length (w_trace w)) (w_trace w')) =
